@@ -131,6 +131,8 @@ func checkC12(r *Run) propMeta {
 	checkKindsNoParamAlias(r, gp)
 	checkKindsInPlace(r, gp)
 	checkKindsEquality(r, gp)
+	checkDedupeAgainstResult(r, gp)
+	checkEntityMergeDelegates(r, gp)
 	checkEntityNilProperties(r, gp)
 	r.Floor("C12-R1-effect-summary", 5)
 	r.Floor("C12-R7-kinds-no-in-place-edit", 5)
